@@ -78,6 +78,8 @@ def k_inverse_search(eng, span=57, dmode="zero"):
                 return True, _TermTime(a[0])
             if callee == "JulianDay::get_solar_time" and isinstance(a[0], _TermTime):
                 return True, a[0]
+            if callee == "JulianDay::get_solar_day" and isinstance(a[0], _TermTime):
+                return True, _CandDay(a[0].term, I(0))
             if isinstance(a[0] if a else None, _TermTime):
                 t = a[0].term
                 if callee == "SolarTime::get_year":
